@@ -36,7 +36,8 @@ RULE = ("four corpora, user names drawn from a hostile near-miss pool (anon_1 _a
         "expected values); (c) nested lets binding "
         "one hostile name with a closed-form trace, and chains of 10-45 simultaneously live let / except bindings in "
         "one unit with digit-suffixed user names chosen so that name+serial of one temporary reads like another's "
-        "(total1 as no. 1 and total as no. 11), each variable logged at the end (closed form); (d) the let/comprehension/nonlocal/match sources of the C04 C06 "
+        "(total1 as no. 1 and total as no. 11), each variable logged at the end (closed form), and single lets that bind "
+        "one name 2-4 times (also through unpacking targets) with closures and reads between the bindings; (d) the let/comprehension/nonlocal/match sources of the C04 C06 "
         "C07 C08 generators when importable (static oracle only). Non-trivial = the compiled AST contains >= 2 "
         "distinct _hy_ names; distinct by program text.")
 FLOOR = {"quick": 1000, "thorough": 1000}
@@ -166,6 +167,11 @@ def cases(seed, tier, shard, nshards):
             tmpl, names, exp, variant = O.digit_program(rng)
             yield {"kind": "shadow", "tmpl": tmpl, "names": names, "exp": exp, "text": O.subst(tmpl, names),
                    "feats": ["digit-suffixed-names", "digits-" + variant], "watch": watch_names(rng, names[:3])}
+        elif r == 8 and i % 20 == 18 and i % 40 == 18:
+            tmpl, n, exp = O.rebind_program(rng)
+            names = O.pick_names(rng, n, "hostile")
+            yield {"kind": "shadow", "tmpl": tmpl, "names": names, "exp": exp, "text": O.subst(tmpl, names),
+                   "feats": ["rebinding-in-one-let"], "watch": watch_names(rng, names[:3])}
         elif r == 8:
             tmpl, exp = O.shadow_program(rng)
             names = O.pick_names(rng, 1, "hostile")
@@ -357,7 +363,7 @@ def ref_mismatch_shadow(case, o):
         return f"{o['phase']} raised {type(o['exc']).__name__}: {str(o['exc'])[:200]}"
     got = [e for e in o["events"] if isinstance(e[0], int)]
     if got != case["exp"]:
-        return f"nested same-name lets: observed {got} expected {case['exp']}"
+        return f"closed-form let program ({", ".join(case.get("feats", ["nested same-name lets"]))}): observed {got} expected {case["exp"]}"
     return None
 
 
